@@ -123,6 +123,7 @@ let () =
   if Array.length Sys.argv > 1 then mask := mask_of Sys.argv.(1);
   let cfg = ref None in
   let hdr = ref "? ? ?" in
+  let policy = ref "" in
   let cur : (string list * int) option ref = ref None in   (* env/rel line awaiting its observations *)
   let obs = ref [] in
   let items = ref [] in
@@ -145,7 +146,9 @@ let () =
         cfg := Some (M.init (nat_of_int (int_of_string k)) (b01 push) (b01 builtin)
                        (List.map hx (if ms = "" then [] else split_on ',' ms)) (b01 unblock));
         items := []; faults := []; cur := None; obs := []
-      | "scenario" :: fam :: seed :: idx :: _ -> hdr := String.concat " " [fam; seed; idx]
+      | "scenario" :: fam :: seed :: idx :: rest ->
+        hdr := String.concat " " [fam; seed; idx];
+        policy := (match rest with p :: _ -> p | [] -> "")
       | "env" :: _ | "rel" :: _ -> flush_cur (); cur := Some (f, ln)
       | "o" :: rest -> obs := parse_obs rest :: !obs
       | ["parked"; p] ->
@@ -166,6 +169,9 @@ let () =
         let its = List.rev !items in
         List.iter (fun x -> Printf.printf "FAULT %s %s\n" !hdr x) (List.rev !faults);
         (match !cfg with
+         | _ when !policy = "race" ->
+           (* racing mode has no windows: the log is judged by the property monitors only *)
+           Printf.printf "OK %s race-mode (monitors only)\n" !hdr
          | None -> Printf.printf "BADLOG %s no cfg\n" !hdr
          | Some s0 ->
            (match A.accept !mask [s0] (List.map fst its) Model.Datatypes.O with
